@@ -806,31 +806,6 @@ Example C03_ex_file_read :
      (s2l "bht", s2l "DEGC", VInt 0, s2l "empty value with unit") ], "free text"%string, [], []).
 Proof. vm_compute. reflexivity. Qed.
 
-(* the theorem applied to it: the first pass, as the theorem describes it *)
-Example C03_ex_file_theorem : forall c,
-  exists ps l,
-    first_pass (fx_ro c true) (lines_keep fx_text) ps0 (find_sections (lines_keep fx_text)) = inl ps /\
-    p_las ps = l /\ header_read_back ex_fstr (fx_ro c true) fx_hs l /\
-    version_of (p_version ps) = Some V12 /\
-    read fx_fhex ex_fstr fx_numeq (fx_ro c true) fx_text = ROk l.
-Proof.
-  intros c.
-  assert (Hw : fx_write = WOk fx_text (mkmlas (hs_las fx_hs) None)) by (vm_compute; reflexivity).
-  destruct (C03_ex_file_domain c) as (Hs & Hb).
-  assert (Hb' : file_hypsb fx_fmtv fx_fmt_pi ex_fstr fx_fhex (fx_ro c true) fx_o fx_hs (s2l "-999.25") = true)
-    by (destruct c; vm_compute; reflexivity).
-  destruct (C03_file_hypsb_ok _ _ _ _ _ _ _ _ Hb') as ((vit & Hh) & Ht & _ & (_ & _ & _ & Hwr & Hl & Hsp & _) & Hd).
-  destruct (C03_file_roundtrip fx_fmtv fx_fmt_diff fx_fmt_pi ex_fstr fx_fzero fx_numeq fx_fhex (fx_ro c true) fx_o ex_m
-              fx_text _ fx_hs
-              (match dsh_of fx_fmtv fx_fmt_pi ex_fstr fx_o fx_hs with Some d => d | None => [] end)
-              (match opt_all (map (row_text fx_fmtv fx_fmt_pi fx_o (Some (s2l "-999.25")) 0%nat) (las_rows (hs_las fx_hs))) with
-               | Some r => r | None => [] end)
-              vit (s2l "-999.25") Hw Hs)
-    as (ps & l & _ & Hfp & Hl0 & Hrb & _ & Hv & _ & _ & _ & _ & _ & Hread); try assumption;
-    try (vm_compute; reflexivity).
-  exists ps, l. repeat (split; [assumption|]). apply Hread. reflexivity.
-Qed.
-
 Print Assumptions C03_written_text_lines.
 Print Assumptions C03_written_blocks_unfold.
 Print Assumptions C03_written_blocks_wf.
